@@ -9,6 +9,8 @@ env = dict(os.environ, GOFLAGS="-mod=mod", GOPROXY="off", GOTOOLCHAIN="local")
 work = tempfile.mkdtemp(dir="/verif/.work")
 tags = "verif,avfs_setostype" if prop in ("c13", "c17") else "verif"
 subprocess.check_call(["go", "test", "-c", "-vet=off", "-tags", tags, "-o", work + "/t", "./" + prop], cwd="/verif/harness", env=env)
+import shutil
+shutil.rmtree("/verif/replays/%s/found" % prop.upper(), ignore_errors=True)
 procs = []
 for i in range(n):
     e = dict(env, VERIF_TIER=tier, VERIF_SHARD=str(i), VERIF_NSHARDS=str(n), VERIF_OUT=work, VERIF_ROOT="/verif", VERIF_MAXVIOL="100000", VERIF_HANG_MS=os.environ.get("VERIF_HANG_MS","200"), VERIF_SEED=os.environ.get("VERIF_SEED", "1"))
